@@ -49,6 +49,7 @@ Record seq3 := {
   sq_action : string;
   sq_args : list string;
   sq_start : state;
+  sq_obs_order : bool;
   sq_order : list nat;
   sq_uorder : list nat;
   sq_steps : list sstep
@@ -83,6 +84,53 @@ Definition is_evalue {A} (r : result A) : bool := match r with Err EValue => tru
 (* the class of the repaired finding D40: some condition of a 'when' / 'forall-when' of the action contains a quantifier *)
 Definition d40_class (a : action) : bool := negb (forallb eff_when_qfree (a_effs a)).
 
+(* ----- inconsistent firing groups.  PDDL does not define the state then (it may depend on the visiting order), and the
+   property does not speak about such calls.  The check still asks more than "no exception": whatever is returned must be
+   what the firing effects give when they are taken in SOME order -
+     an atom that some group adds and no OTHER group deletes is present (inside one group the delete comes first);
+     an atom that is only deleted is absent; an atom added by one group and deleted by another may be either;
+     a fluent that firing effects set holds ONE of the values they computed in the pre-state;
+     every other fact and fluent is unchanged (the frame);
+   and, when the harness observed the visiting order, the model run in that order must give exactly the returned state
+   (unless two effects of ONE group set the same fluent: the order inside a group's set is not observed). ----- *)
+Definition pure_dels (groups : list (list gprim)) : list atom :=
+  flat_map (fun g => filter (fun a => negb (atom_in a (adds_of g))) (dels_of g)) groups.
+
+Definition set_values (k : atom) (groups : list (list gprim)) : list float :=
+  flat_map (fun g => flat_map (fun x => match x with GSet a v => if atom_eqb a k then [v] else [] | _ => [] end) g) groups.
+
+Definition weak_succ_ok (s : state) (groups : list (list gprim)) (s' : state) : bool :=
+  let adds := flat_map adds_of groups in
+  let pdels := pure_dels groups in
+  forallb (fun a =>
+             let inA := atom_in a adds in
+             let inD := atom_in a pdels in
+             if inA && negb inD then atom_in a (facts s')
+             else if inD && negb inA then negb (atom_in a (facts s'))
+             else if inA then true
+             else Bool.eqb (atom_in a (facts s')) (atom_in a (facts s)))
+          (facts s ++ facts s' ++ adds ++ flat_map dels_of groups) &&
+  forallb (fun k =>
+             match set_values k groups with
+             | [] => match fluent_get k (fluents s'), fluent_get k (fluents s) with
+                     | Some x, Some y => float_eq x y
+                     | None, None => true
+                     | _, _ => false
+                     end
+             | vs => match fluent_get k (fluents s') with
+                     | Some x => existsb (float_eq x) vs
+                     | None => false
+                     end
+             end)
+          (map fst (fluents s) ++ map fst (fluents s') ++ flat_map sets_of groups).
+
+Definition weak_obs_ok (s : state) (groups : list (list gprim)) (o : obs state) : bool :=
+  match o with Returned s' => weak_succ_ok s groups s' | Raised => false end.
+
+(* no group sets one fluent twice: then the model, run in the observed visiting order, predicts the state exactly *)
+Definition inner_determined (groups : list (list gprim)) : bool :=
+  forallb (fun g => no_dup_atoms (sets_of g)) groups.
+
 Definition judge_probe (w : world3) (md : mdomain) (sd : sdomain) (p : probe3) : list verdict :=
   let eps := v_eps w in
   let tt := spec_tt sd in
@@ -107,16 +155,18 @@ Definition judge_probe (w : world3) (md : mdomain) (sd : sdomain) (p : probe3) :
       let known := false in          (* no open finding class (D40 repaired: its class is part of the ordinary cases) *)
       (* where the firing effects are inconsistent the property is silent about the state (it may depend on the
          visiting order): only "returned / raised" is compared there *)
+      let exact := cons || (q_obs_order p && inner_determined groups) in
       [ {| v_agree := den_ok && Bool.eqb (is_evalue m_succ) (q_valerr p) &&
-                      (if cons then obs_eqb state_equiv (obs_of_result m_succ) (q_succ p)
+                      (if exact then obs_eqb state_equiv (obs_of_result m_succ) (q_succ p)
                        else Bool.eqb (is_ok m_succ) (negb (obs_raised (q_succ p))));
            v_ok := if app then (if cons then obs_eqb state_equiv (Returned succ_spec) (q_succ p)
-                                else negb (obs_raised (q_succ p)))
+                                else weak_obs_ok (q_state p) groups (q_succ p))
                    else obs_raised (q_succ p) && q_valerr p;
            v_known := known |};
-        {| v_agree := if cons then obs_eqb state_equiv (obs_of_result m_forced) (q_forced p)
+        {| v_agree := if exact then obs_eqb state_equiv (obs_of_result m_forced) (q_forced p)
                       else Bool.eqb (is_ok m_forced) (negb (obs_raised (q_forced p)));
-           v_ok := if cons then obs_eqb state_equiv (Returned succ_spec) (q_forced p) else negb (obs_raised (q_forced p));
+           v_ok := if cons then obs_eqb state_equiv (Returned succ_spec) (q_forced p)
+                   else weak_obs_ok (q_state p) groups (q_forced p);
            v_known := known |} ]
   | _, _ =>
       (* the action is unknown to one reading: the implementation must have raised *)
@@ -147,19 +197,22 @@ Section Seq.
     let m_in := match ss_src st with SPrev => m_cur | SFrom s => s end in
     let s_in := match ss_src st with SPrev => s_cur | SFrom s => s end in
     let m_res := run_model_at w md (sq_action q) (sq_args q) (sq_order q) (sq_uorder q) m_in (ss_allow st) in
-    let cons_m := consistent (all_groups eps tt objs A (sq_args q) m_in) in
-    let cons_s := consistent (all_groups eps tt objs A (sq_args q) s_in) in
+    let groups_m := all_groups eps tt objs A (sq_args q) m_in in
+    let groups_s := all_groups eps tt objs A (sq_args q) s_in in
+    let cons_m := consistent groups_m in
+    let cons_s := consistent groups_s in
+    let exact := cons_m || (sq_obs_order q && inner_determined groups_m) in
     let app := applicable eps tt objs A (sq_args q) s_in in
     let nxt := successor eps tt objs A (sq_args q) s_in in
     let agree :=
       Bool.eqb (is_evalue m_res) (ss_valerr st) &&
-      (if cons_m then obs_eqb state_equiv (obs_of_result m_res) (ss_succ st)
+      (if exact then obs_eqb state_equiv (obs_of_result m_res) (ss_succ st)
        else Bool.eqb (is_ok m_res) (negb (obs_raised (ss_succ st)))) in
     let ok :=
       if app || ss_allow st then
-        (if cons_s then obs_eqb state_equiv (Returned nxt) (ss_succ st) else negb (obs_raised (ss_succ st)))
+        (if cons_s then obs_eqb state_equiv (Returned nxt) (ss_succ st) else weak_obs_ok s_in groups_s (ss_succ st))
       else obs_raised (ss_succ st) && ss_valerr st in
-    let late_agree := negb cons_m || late_ok (obs_of_result m_res) (ss_late st) in
+    let late_agree := negb exact || late_ok (obs_of_result m_res) (ss_late st) in
     let late_okb := negb (app || ss_allow st) || negb cons_s || late_ok (Returned nxt) (ss_late st) in
     (* where the firing effects are inconsistent PDDL does not define the state: both chains go on from the state
        the implementation returned *)
@@ -222,6 +275,7 @@ Record xstep := {
 Record xseq := {
   xq_call : nat;
   xq_start : nat;
+  xq_obs_order : bool;
   xq_order : list nat;
   xq_uorder : list nat;
   xq_steps : list xstep
@@ -264,7 +318,8 @@ Definition decode_seq (w : xworld) (q : xseq) : seq3 :=
   let call := nth (xq_call q) (x_calls w) ("", []) in
   {| sq_action := fst call; sq_args := snd call;
      sq_start := decode_state w (nth (xq_start q) (x_states w) ([], []));
-     sq_order := xq_order q; sq_uorder := xq_uorder q; sq_steps := map (decode_step w) (xq_steps q) |}.
+     sq_obs_order := xq_obs_order q; sq_order := xq_order q; sq_uorder := xq_uorder q;
+     sq_steps := map (decode_step w) (xq_steps q) |}.
 
 Definition decode_world (w : xworld) : world3 :=
   {| v_text := x_text w; v_nums := x_nums w; v_eps := x_eps w; v_objs := x_objs w;
@@ -276,6 +331,45 @@ Definition judge_any (w : anyworld) : list verdict :=
   match w with WFull v => judge_world3 v | WCompact x => judge_world3 (decode_world x) end.
 
 Definition run (ws : list anyworld) : string := t2s (map verdict_char (flat_map judge_any ws)).
+
+(* how each unit was judged (for the input-distribution table of the evidence): c = firing effects consistent, judged by the
+   spec successor; I = inconsistent, judged by the frame/membership oracle and compared EXACTLY with the model (order
+   observed); i = inconsistent, frame/membership oracle only; r = refused call (an error expected); ? = no reading *)
+Definition tag_of (cons exact : bool) : ascii := if cons then "c"%char else if exact then "I"%char else "i"%char.
+
+Definition tags_probe (w : world3) (sd : sdomain) (p : probe3) : list ascii :=
+  match find_action sd (q_action p) with
+  | Some A =>
+      let objs := dupdate (sd_consts sd) (v_objs w) in
+      let groups := all_groups (v_eps w) (spec_tt sd) objs A (q_args p) (q_state p) in
+      let t := tag_of (consistent groups) (q_obs_order p && inner_determined groups) in
+      [ if applicable (v_eps w) (spec_tt sd) objs A (q_args p) (q_state p) then t else "r"%char; t ]
+  | None => ["?"%char; "?"%char]
+  end.
+
+Definition tags_seq (w : world3) (md : mdomain) (sd : sdomain) (q : seq3) : list ascii :=
+  match find_action sd (sq_action q) with
+  | Some A =>
+      let vs := seq_views w md sd A q (sq_start q) (sq_start q) (sq_steps q) in
+      let t := if forallb sv_cons vs then "c"%char else "i"%char in [t; t]
+  | None => ["?"%char; "?"%char]
+  end.
+
+Definition tags_any (a : anyworld) : list ascii :=
+  let w := match a with WFull v => v | WCompact x => decode_world x end in
+  match model_domain (core_world w), spec_domain (core_world w) with
+  | Ok md, Some sd => flat_map (tags_probe w sd) (v_probes w) ++ flat_map (tags_seq w md sd) (v_seqs w)
+  | _, _ => flat_map (fun _ => ["?"%char; "?"%char]) (v_probes w) ++ flat_map (fun _ => ["?"%char; "?"%char]) (v_seqs w)
+  end.
+
+(* two characters per unit: the verdict, then the tag *)
+Fixpoint interleave (a b : list ascii) : list ascii :=
+  match a, b with
+  | x :: r, y :: t => x :: y :: interleave r t
+  | _, _ => []
+  end.
+Definition run2 (ws : list anyworld) : string :=
+  t2s (flat_map (fun a => interleave (map verdict_char (judge_any a)) (tags_any a)) ws).
 
 (* debugging aid for replay files: what the model and the spec say for every probe of a world *)
 Definition explain (w : anyworld) :=
